@@ -307,10 +307,8 @@ theorem convert_linear_strictMono (hP : P.Pos) (hT : T.Lawful) (hs : s.Pos) (a b
   rw [← h1, ← h2]; exact mul_lt_mul_of_pos_left hfg hk0
 
 /-- brighter ⇒ smaller magnitude: from a linear unit to a magnitude unit the conversion is strictly
-decreasing.  `LogMono T` (log₁₀ strictly increasing on the positive numbers) is an extra hypothesis:
-it holds of the real logarithm (`logMono_real`) but does not follow from the algebraic laws of
-`Transc.Lawful`. -/
-theorem brighter_smaller_mag (hP : P.Pos) (hT : T.Lawful) (hm : LogMono T) (hs : s.Pos)
+decreasing (log₁₀ is strictly increasing on the positive numbers by the law `pow10_strictMono`). -/
+theorem brighter_smaller_mag (hP : P.Pos) (hT : T.Lawful) (hs : s.Pos)
     (a b : FluxUnit K) (ha : a.Pos) (hb : b.Pos) (ham : a.isMag = false) (hbm : b.isMag = true)
     {f g m1 m2 : K} (hfg : f < g) (h1 : convertOne P T s a b f = .ok m1)
     (h2 : convertOne P T s a b g = .ok m2) : m2 < m1 := by
@@ -319,10 +317,10 @@ theorem brighter_smaller_mag (hP : P.Pos) (hT : T.Lawful) (hm : LogMono T) (hs :
   have hr : 0 < ka / kb := div_pos (unitFactor_pos hP hs a ha hka) (unitFactor_pos hP hs b hb hkb)
   rw [convertOne_factor hP hT hs a b ha hb hka hkb] at h1 h2
   simp only [hbm, if_true, linVal, ham, Bool.false_eq_true, if_false] at h1 h2
-  exact toMag_strictAnti hm (mul_lt_mul_of_pos_right hfg hr) h1 h2
+  exact toMag_strictAnti (logMono_of_lawful hT) (mul_lt_mul_of_pos_right hfg hr) h1 h2
 
 /-- the other direction: a larger magnitude is a smaller flux in every linear unit -/
-theorem larger_mag_fainter (hP : P.Pos) (hT : T.Lawful) (hm : LogMono T) (hs : s.Pos)
+theorem larger_mag_fainter (hP : P.Pos) (hT : T.Lawful) (hs : s.Pos)
     (a b : FluxUnit K) (ha : a.Pos) (hb : b.Pos) (ham : a.isMag = true) (hbm : b.isMag = false)
     {m1 m2 y1 y2 : K} (hmm : m1 < m2) (h1 : convertOne P T s a b m1 = .ok y1)
     (h2 : convertOne P T s a b m2 = .ok y2) : y2 < y1 := by
@@ -332,21 +330,21 @@ theorem larger_mag_fainter (hP : P.Pos) (hT : T.Lawful) (hm : LogMono T) (hs : s
   rw [convertOne_factor hP hT hs a b ha hb hka hkb] at h1 h2
   simp only [hbm, Bool.false_eq_true, if_false, linVal, ham, if_true] at h1 h2
   injection h1 with h1; injection h2 with h2
-  rw [← h1, ← h2]; exact mul_lt_mul_of_pos_right (ofMag_strictAnti hT hm hmm) hr
+  rw [← h1, ← h2]; exact mul_lt_mul_of_pos_right (ofMag_strictAnti hT (logMono_of_lawful hT) hmm) hr
 
 /-- at ℝ with the real functions no extra hypothesis is left: brighter ⇒ smaller magnitude -/
 theorem brighter_smaller_mag_real {P : PhysConst ℝ} {s : Samp ℝ} (hP : P.Pos) (hs : s.Pos)
     (a b : FluxUnit ℝ) (ha : a.Pos) (hb : b.Pos) (ham : a.isMag = false) (hbm : b.isMag = true)
     {f g m1 m2 : ℝ} (hfg : f < g) (h1 : convertOne P Transc.real s a b f = .ok m1)
     (h2 : convertOne P Transc.real s a b g = .ok m2) : m2 < m1 :=
-  brighter_smaller_mag hP Transc.real_lawful logMono_real hs a b ha hb ham hbm hfg h1 h2
+  brighter_smaller_mag hP Transc.real_lawful hs a b ha hb ham hbm hfg h1 h2
 
 /-- and a larger magnitude is a smaller flux -/
 theorem larger_mag_fainter_real {P : PhysConst ℝ} {s : Samp ℝ} (hP : P.Pos) (hs : s.Pos)
     (a b : FluxUnit ℝ) (ha : a.Pos) (hb : b.Pos) (ham : a.isMag = true) (hbm : b.isMag = false)
     {m1 m2 y1 y2 : ℝ} (hmm : m1 < m2) (h1 : convertOne P Transc.real s a b m1 = .ok y1)
     (h2 : convertOne P Transc.real s a b m2 = .ok y2) : y2 < y1 :=
-  larger_mag_fainter hP Transc.real_lawful logMono_real hs a b ha hb ham hbm hmm h1 h2
+  larger_mag_fainter hP Transc.real_lawful hs a b ha hb ham hbm hmm h1 h2
 
 /-- between two magnitude systems the conversion adds a constant (at a given wavelength): in
 particular it is strictly increasing and differences of magnitudes are the same in every system -/
@@ -804,7 +802,7 @@ example : (3 : ℝ) * 2 ^ 2 / 2 < 5 * 2 ^ 2 / 2 :=
 
 /-- ten times the flux: a smaller STmag -/
 example : -(5/2) * real.log10 10 - 0 < -(5/2) * real.log10 1 - 0 :=
-  brighter_smaller_mag exP_pos real_lawful logMono_real exS_pos .flam .stmag trivial trivial rfl rfl
+  brighter_smaller_mag exP_pos real_lawful exS_pos .flam .stmag trivial trivial rfl rfl
     (by norm_num : (1 : ℝ) < 10)
     (flam_to_stmag exP_pos real_lawful exS_pos 0 exP_stZero 1 (by norm_num))
     (flam_to_stmag exP_pos real_lawful exS_pos 0 exP_stZero 10 (by norm_num))
@@ -813,9 +811,9 @@ example : -(5/2) * real.log10 10 - 0 < -(5/2) * real.log10 1 - 0 :=
 example : (1 : ℝ) < 10 := by
   have h1 := flam_to_stmag exP_pos real_lawful exS_pos 0 exP_stZero 1 (by norm_num)
   have h10 := flam_to_stmag exP_pos real_lawful exS_pos 0 exP_stZero 10 (by norm_num)
-  have hlt := brighter_smaller_mag exP_pos real_lawful logMono_real exS_pos .flam .stmag trivial trivial
+  have hlt := brighter_smaller_mag exP_pos real_lawful exS_pos .flam .stmag trivial trivial
     rfl rfl (by norm_num : (1 : ℝ) < 10) h1 h10
-  exact larger_mag_fainter exP_pos real_lawful logMono_real exS_pos .stmag .flam trivial trivial rfl rfl hlt
+  exact larger_mag_fainter exP_pos real_lawful exS_pos .stmag .flam trivial trivial rfl rfl hlt
     (convert_roundtrip exP_pos real_lawful exS_pos .flam .stmag trivial trivial h10)
     (convert_roundtrip exP_pos real_lawful exS_pos .flam .stmag trivial trivial h1)
 
